@@ -421,3 +421,26 @@ check("C17", "vloop+bussim",
       "image.",
       "Trusted: mc/coe.py's SII builder (rebuilds the six real EEPROM dumps "
       "of testdata.py byte for byte).")
+
+check("C05", "bpfvm",
+      "bounded exhaustive enumeration of generated programs, each loaded "
+      "into the real kernel (the verifier is the oracle)",
+      "Every program of the C01-C04, C06-C09 enumerators (deterministic 1/k "
+      "slices, rotated by the seed, k recorded) plus dedicated families "
+      "(hash-map variables as source/destination/in conditions x formats x "
+      "register contexts, Dict update/lookup with and without Else and "
+      "modify-in-lookup with r0 owned/unowned, ktime/prandom in expressions "
+      "and conditions, subprograms with locals and array variables, locals "
+      "filling 480..520 stack bytes, all packetSize guard forms) and the "
+      "library's own programs (EtherXDP over a real PROG_ARRAY, "
+      "FastSyncGroup with all bundled devices over faked terminals in FMMU, "
+      "direct and mixed layouts) is assembled by the real generator and "
+      "loaded with BPF_PROG_LOAD: 23k loads quick, ~230k thorough. A "
+      "generator refusal is counted, a verifier rejection is a violation "
+      "with the verifier log tail.",
+      "The verdict is that of this sandbox's kernel (6.18, root). Without "
+      "bpf() the check reports kernel_available=false and exits 0 (no "
+      "mini-verifier was built). Constant shifts >= width and locals beyond "
+      "512 bytes are outside the statement's side conditions. Three known "
+      "findings (atomic add into packet memory, temporaries below a full "
+      "stack, Else after an unconditional exit).")
